@@ -202,6 +202,9 @@ pub enum Step {
     JoinAskPanic { slot: u8, msg: MsgSpec },
     /// the executor is kept busy for this long: the clock moves on although other tasks are ready to run
     Stall(u32),
+    /// n plain asks in a row to the actor in `slot`, answered by a handler that leaves no trace: a long history in
+    /// front of the scenario proper
+    WarmAsks { slot: u8, n: u32 },
     /// the ask is made here (through an erased handler the request future is created here), but it is a detached
     /// task - not the running hook - that waits for the reply
     SpawnAsk { slot: u8, msg: MsgSpec },
